@@ -405,7 +405,7 @@ func (v *Vue) mergeStyles(staticStyle, boundStyle string) string {
 func parseStyleList(style string) ([]string, map[string]string) {
 	values := make(map[string]string)
 	var keys []string
-	for _, part := range strings.Split(style, ";") {
+	for _, part := range splitStyleDeclarations(style) {
 		part = strings.TrimSpace(part)
 		if part == "" {
 			continue
@@ -423,6 +423,37 @@ func parseStyleList(style string) ([]string, map[string]string) {
 	return keys, values
 }
 
+// splitStyleDeclarations splits a CSS style string at the semicolons that end a declaration:
+// a semicolon inside parentheses or quotes belongs to the value, as in
+// url(data:image/png;base64,AAAA) or content: "a;b".
+func splitStyleDeclarations(style string) []string {
+	var parts []string
+	depth, quote, start := 0, byte(0), 0
+	for i := 0; i < len(style); i++ {
+		c := style[i]
+		switch {
+		case quote != 0:
+			if c == '\\' {
+				i++
+			} else if c == quote {
+				quote = 0
+			}
+		case c == '"' || c == '\'':
+			quote = c
+		case c == '(':
+			depth++
+		case c == ')':
+			if depth > 0 {
+				depth--
+			}
+		case c == ';' && depth == 0:
+			parts = append(parts, style[start:i])
+			start = i + 1
+		}
+	}
+	return append(parts, style[start:])
+}
+
 // parseStyleMap parses a CSS style string into a map of properties to values.
 func parseStyleMap(style string) map[string]string {
 	result := make(map[string]string)
@@ -430,8 +461,8 @@ func parseStyleMap(style string) map[string]string {
 		return result
 	}
 
-	// Split by semicolon to get individual properties
-	parts := strings.Split(style, ";")
+	// Split into individual declarations
+	parts := splitStyleDeclarations(style)
 	for _, part := range parts {
 		part = strings.TrimSpace(part)
 		if part == "" {
